@@ -664,6 +664,26 @@ def c06_matchers(v, text="", ode=None, ref=None, code=None, **kw):
                 pass
             if E.COUNTERS.get("saturated_sigmoid", 0) > before:
                 return "C06-linearisation-of-saturated-sigmoid-is-nan"
+    if v.get("kind") == "value" and ref is not None and code and v.get("_point") and d.get("branch_expected") == "rl" and kw.get("backend") == "numpy":
+        # the emitted derivative has a 0/0 (or inf/inf) at this input although g exists, e.g. d/dx acos(Conditional(Gt(x, 0.75), b, x))
+        # = -0/sqrt(1 - b**2) at b = 1: g is nan, `abs(nan) > delta` is false, the step silently is the Euler step.
+        # Observed directly: the same call with invalid floating-point operations trapped raises.
+        import numpy as np
+
+        from ..exec.pyexec import PyModule
+
+        got, eu = d.get("got"), d.get("euler")
+        if got is not None and eu is not None and abs(got - eu) <= 1e-12 * max(1.0, abs(eu)):
+            try:
+                mod = PyModule(code)
+                s_, p_, m_ = mod.arrays(v["_point"])
+                fn = next((f for f in ("generalized_rush_larsen", "forward_generalized_rush_larsen") if mod.has(f)), None)
+                with np.errstate(invalid="raise"):
+                    mod.ns[fn](s_, np.float64(v["_point"]["t"]), np.float64(d["dt"]), p_)
+            except FloatingPointError:
+                return "C06-linearisation-is-nan-at-a-removable-zero-over-zero"
+            except Exception:
+                pass
     return None
 
 
